@@ -79,3 +79,81 @@ package cache
 //@   loop 1 invariant forallv(k string, contains(t.writtenCaches, k) && !visited(k) ==> heldW(t.writtenCaches[k].mu))
 //@   loop 1 invariant forallv(k string, contains(t.writtenCaches, k) && visited(k) ==> unheld(t.writtenCaches[k].mu))
 //@   loop 1 invariant failed ==> forallv(k string, contains(t.writtenCaches, k) && visited(k) ==> t.writtenCaches[k].scrapped && !contains(t.manager.sharedCaches, k))
+
+// ---- item cache (properties C04, C08): the cache map as a write-back view of the bucket ----
+// ErrNotFound is initialised to a non-nil error and never reassigned.
+//@ globalinv ErrNotFound != nil
+// One contract per generic method; every instantiation is verified against it (K, V stand for
+// the instance's type arguments).
+//@ func (*ItemCache).Put
+//@   property C04 C08
+//@   requires unheld(ic.itemsMu) && ic.items != nil
+//@   modifies ic.items
+//@   ensures unheld(ic.itemsMu)
+//@   ensures contains(ic.items, id) && ic.items[id] != nil && ic.items[id].value == item && ic.items[id].IsDirty && !ic.items[id].IsDeleted
+//@   ensures forallv(k K, k != id ==> contains(ic.items, k) == old(contains(ic.items, k)) && ic.items[k] == old(ic.items[k]))
+
+// read: a successful read-through installs a clean, live entry holding exactly what ReadFrom
+// returned; a failed one leaves the map alone.
+//@ func (*ItemCache).read
+//@   property C04 C08
+//@   requires ic.items != nil
+//@   modifies ic.items
+//@   ensures result1 == nil ==> contains(ic.items, id) && ic.items[id] != nil && ic.items[id].value == result0 && !ic.items[id].IsDirty && !ic.items[id].IsDeleted
+//@   ensures result1 == nil ==> result0 == callres(ReadFrom, 1, 0)
+//@   ensures result1 != nil ==> contains(ic.items, id) == old(contains(ic.items, id)) && ic.items[id] == old(ic.items[id])
+//@   ensures forallv(k K, k != id ==> contains(ic.items, k) == old(contains(ic.items, k)) && ic.items[k] == old(ic.items[k]))
+//@   ensures ncalls(ReadFrom) == 1 && callarg(ReadFrom, 1, 1) == id && callarg(ReadFrom, 1, 2) == ic.bucket
+
+// Get: a cached entry wins over the bucket (a tombstone means not found); otherwise read-through.
+//@ func (*ItemCache).Get
+//@   property C04 C08
+//@   requires unheld(ic.itemsMu) && ic.items != nil
+//@   requires forallv(k K, contains(ic.items, k) ==> ic.items[k] != nil)
+//@   modifies ic.items
+//@   ensures unheld(ic.itemsMu)
+//@   ensures old(contains(ic.items, id)) && old(ic.items[id].IsDeleted) ==> err == ErrNotFound
+//@   ensures old(contains(ic.items, id)) && !old(ic.items[id].IsDeleted) ==> err == nil && value == old(ic.items[id].value)
+//@   ensures old(contains(ic.items, id)) ==> forallv(k K, contains(ic.items, k) == old(contains(ic.items, k)) && ic.items[k] == old(ic.items[k]))
+//@   ensures !old(contains(ic.items, id)) && err == nil ==> contains(ic.items, id) && ic.items[id].value == value && !ic.items[id].IsDeleted
+//@   ensures forallv(k K, contains(ic.items, k) ==> ic.items[k] != nil)
+
+// Delete: every requested id that is cached or found in the bucket ends up as a tombstone.
+//@ func (*ItemCache).Delete
+//@   property C04 C08
+//@   requires unheld(ic.itemsMu) && ic.items != nil
+//@   requires forallv(k K, contains(ic.items, k) ==> ic.items[k] != nil)
+//@   modifies ic.items, field(itemCacheElem.IsDeleted)
+//@   ensures unheld(ic.itemsMu)
+//@   ensures result == nil ==> forall(i, 0, len(ids), contains(ic.items, ids[i]) ==> ic.items[ids[i]].IsDeleted)
+//@   ensures forallv(k K, old(contains(ic.items, k)) ==> contains(ic.items, k) && ic.items[k] == old(ic.items[k]))
+//@   ensures forallv(k K, contains(ic.items, k) ==> ic.items[k] != nil)
+//@   loop 1 invariant rangeindex >= -1 && rangeindex < len(ids) && held(ic.itemsMu)
+//@   loop 1 invariant forall(i, 0, rangeindex+1, contains(ic.items, ids[i]) ==> ic.items[ids[i]].IsDeleted)
+//@   loop 1 invariant forallv(k K, old(contains(ic.items, k)) ==> contains(ic.items, k) && ic.items[k] == old(ic.items[k]))
+//@   loop 1 invariant forallv(k K, contains(ic.items, k) ==> ic.items[k] != nil)
+
+// Storable methods as the item cache sees them: they work on the bucket and on the item they
+// are called on, never on the cache's own map or elements. Assumed for the implementations
+// that carry no contract of their own (the vector store point types have verified ones).
+//@ func (Storable).ReadFrom
+//@   trusted
+//@   implementations 3
+//@   pure
+//@   allocates
+//@ func (Storable).WriteTo
+//@   trusted
+//@   implementations 3
+//@   pure
+//@ func (Storable).DeleteFrom
+//@   trusted
+//@   implementations 3
+//@   pure
+//@ func (Storable).IdFromKey
+//@   trusted
+//@   implementations 2
+//@   pure
+//@ func (Storable).CheckAndClearDirty
+//@   trusted
+//@   implementations 1
+//@   pure
